@@ -240,6 +240,18 @@ func init() {
 	I["(github.com/cosmos/cosmos-sdk/types.Context).BlockTime"] = ctxFn("ctx_blocktime", SInt, nil)
 	I["(github.com/cosmos/cosmos-sdk/types.Context).BlockHeight"] = ctxFn("ctx_blockheight", SInt, nil)
 	I["(github.com/cosmos/cosmos-sdk/types.Context).ChainID"] = ctxFn("ctx_chainid", SStr, nil)
+	I["(github.com/cosmos/cosmos-sdk/types.Context).BlockHeader"] = func(fc *FCtx, st *State, e *ast.CallExpr, r *Val, a []Val) []Val {
+		fc.ctxTheory()
+		hs := fc.U.SortOf(fc.resT(e))
+		fc.U.Fun("ctx_header", []*Sort{r.S}, hs)
+		v := Val{T: app("ctx_header", r.T), S: hs, GoT: fc.resT(e)}
+		for _, f := range []struct{ field, fn string }{{"Time", "ctx_blocktime"}, {"Height", "ctx_blockheight"}, {"ChainID", "ctx_chainid"}} {
+			if fv, ok := fieldSel(v, f.field); ok {
+				st.assume(fmt.Sprintf("(= %s (%s %s))", fv.T, f.fn, r.T))
+			}
+		}
+		return one(v)
+	}
 	I["github.com/cosmos/cosmos-sdk/types.UnwrapSDKContext"] = func(fc *FCtx, st *State, e *ast.CallExpr, r *Val, a []Val) []Val {
 		s := fc.U.opaque("Ctx")
 		fc.U.Fun("unwrap_ctx", []*Sort{a[0].S}, s)
